@@ -30,6 +30,9 @@ var exportedLayouts = []string{slog.TimeNoNano, slog.TimeNano, slog.DateTime, sl
 
 func c16instant(r *gen.R, zones []*time.Location) time.Time {
 	loc := gen.Pick(r, zones)
+	if r.P(3) { // the zero instant (and its neighbours): a record's own instant like any other
+		return gen.Pick(r, []time.Time{{}, time.Time{}.In(loc), time.Time{}.Add(1), time.Time{}.Add(time.Second), time.Date(1, 1, 1, 0, 0, 0, 0, loc), time.Unix(0, 0).In(loc)})
+	}
 	ns := 0
 	switch r.Intn(6) {
 	case 0:
@@ -98,6 +101,24 @@ func c16ts(c *Ctx) {
 				slog.RemoveFlags(b)
 			}
 		}
+		// a temporary window opened with SaveFlagsAndMod (other date/time bits, a record inside) and closed with
+		// its restore closure - the usual `defer SaveFlagsAndMod(...)()` idiom: afterwards the flags above apply again
+		window := r.P(35)
+		if window {
+			var add, del slog.Flags
+			for _, b := range []slog.Flags{slog.Ldate, slog.Ltime, slog.Lmicroseconds, slog.LlocalTime} {
+				if r.Bool() {
+					add |= b
+				} else {
+					del |= b
+				}
+			}
+			restoreWindow := slog.SaveFlagsAndMod(add, del)
+			wl := newRoot("window", Format(r.Intn(3)), w, slog.AlwaysLevel)
+			wl.WriteThru(bg, slog.InfoLevel, c16instant(r, zones), thePC, "inside the window", nil)
+			restoreWindow()
+			c.R.Add("cases_after_a_saveflags_window", 1)
+		}
 		f := Format(r.Intn(3))
 		lg := newRoot(gen.Pick(r, []string{"", "t16"}), f, w, slog.AlwaysLevel)
 		utc := r.Intn(3) // 0 unset, 1 SetUTCMode(false), 2 SetUTCMode(true)
@@ -118,7 +139,7 @@ func c16ts(c *Ctx) {
 		}
 		ts := c16instant(r, zones)
 		evs := capture(log, func() { lg.WriteThru(bg, slog.InfoLevel, ts, thePC, "tsprobe", nil) })
-		desc := map[string]any{"format": f.String(), "flags": flagNames(fl), "utc_mode": []string{"unset", "local (SetUTCMode(false))", "utc"}[utc], "logger_layout": layout, "instant": ts.Format(time.RFC3339Nano), "zone": ts.Location().String()}
+		desc := map[string]any{"after_saveflags_window": window, "format": f.String(), "flags": flagNames(fl), "utc_mode": []string{"unset", "local (SetUTCMode(false))", "utc"}[utc], "logger_layout": layout, "instant": ts.Format(time.RFC3339Nano), "zone": ts.Location().String()}
 		if len(evs) != 1 {
 			c.R.Violation(idx, "one-write", "C16/one-write", fmtEvents(evs), desc)
 			return
